@@ -9,7 +9,8 @@ import subprocess
 import vt
 
 LEVEL = "fault_enumeration"
-BUILDS = [(("drv_c18", ["drv_c18.cpp"]), {})]
+BUILDS = [(("drv_c18", ["drv_c18.cpp"]), {}),
+          (("drv_c18_mpi", ["drv_c18.cpp"]), {"flags": ["-DVT_SHIM", "-I" + os.path.join(vt.HARNESS, "mpishim")]})]
 
 
 def build_interposer():
@@ -39,7 +40,7 @@ def run(chk, replay=None):
     chk.cov["checker_cmd"] = "tlc MC_FileSys (tmprename: invariant holds; direct: violated); tlc Trace_C18 (TRACE=out/C18/trace.ndjson)"
     chk.cov["trusted_base"] = ["TLC", "LD_PRELOAD interposer sees open/fopen/write/writev/rename/unlink of the C++ runtime (close is issued inside libc and not seen; it "
                                "does not change file contents)", "process kill = _exit inside the interposer (page cache survives, as for SIGKILL); power loss / fsync out of scope"]
-    chk.cov["rule"] = ("one case per kill point: for PLAIN (checkpoint < 1 kB, below the stream buffer), multi-channel (~10 kB) and VEGAS (128 bins x 3 dims, 30-80 kB, "
+    chk.cov["rule"] = ("one case per kill point: for PLAIN (checkpoint < 1 kB, below the stream buffer), mpi_plain on 3 ranks of the thread shim with mpi_callback, multi-channel (~10 kB) and VEGAS (128 bins x 3 dims, 30-80 kB, "
                        "many 8 kB writes) with 3 iterations: kill before and after every open / write / rename and inside every write after {0, 1, half, n-1} "
                        "bytes; after each kill the file is classified against the reference texts and the run is resumed; non-trivial = kill inside or right "
                        "after a call that changes a file")
@@ -52,7 +53,8 @@ def run(chk, replay=None):
     if comp.rc != 0 or "No error has been found" not in comp.out:
         raise vt.MachineryError("Crash.tla (tmp+rename) failed:\n" + comp.tail())
     chk.model("Crash", "Crash_direct", what="Crash with the direct protocol: a killed run can be lost (NeverLost violated)", expect_violation="NeverLost")
-    exe = vt.build(*BUILDS[0][0])
+    exe_serial = vt.build(*BUILDS[0][0])
+    exe_mpi = vt.build(*BUILDS[1][0], **BUILDS[1][1])
     lib = build_interposer()
     trace = replay or chk.path("trace.ndjson")
     if not replay:
@@ -60,7 +62,8 @@ def run(chk, replay=None):
         work = chk.path("work")
         niter = 3
         nkills = 0
-        for kind in ("plain", "mc", "vegas"):
+        for kind in ("plain", "mpi", "mc", "vegas"):
+            exe = exe_mpi if kind == "mpi" else exe_serial
             ref = os.path.join(work, kind, "ref")
             w = os.path.join(work, kind, "w")
             os.makedirs(ref)
